@@ -100,19 +100,24 @@ func (s *set[ElementType]) Compute(mutationFactory func(set ReadableSet[ElementT
 	return s.apply(mutationFactory(s.readableSet))
 }
 
-// Replace replaces the elements of the set with the given elements and returns the previous elements of the set.
-func (s *set[ElementType]) Replace(elements ReadableSet[ElementType]) (previousElements Set[ElementType]) {
+// Replace replaces the elements of the set with the given elements and returns the removed elements (the previous
+// elements that are not part of the new elements).
+func (s *set[ElementType]) Replace(elements ReadableSet[ElementType]) (removedElements Set[ElementType]) {
 	s.applyMutex.Lock()
 	defer s.applyMutex.Unlock()
 
-	previousElements = NewSet(s.ToSlice()...)
-	s.Clear()
+	// take a snapshot of the new elements first, so that replacing a set with (a view of) itself is a no-op
+	newElements := NewSet(elements.ToSlice()...)
+	removedElements = s.Filter(func(element ElementType) bool {
+		return !newElements.Has(element)
+	})
 
-	elements.Range(func(element ElementType) {
+	s.Clear()
+	newElements.Range(func(element ElementType) {
 		s.Set(element, types.Void)
 	})
 
-	return previousElements
+	return removedElements
 }
 
 // ReadOnly returns a read-only version of the set.
